@@ -258,10 +258,11 @@ def tasks(tier, seed):
     shapes = ['d3_bal', 'd2_bal', 'd3_chain', 'd1_four', 'd2_single_child', 'd3_mid_single']
     for i, s in enumerate(shapes):
         h = fx.taxonomy_spec(s)['hierarchy']
-        factors = dict(bootstrap_factor=[0.3, 0.5, 0.8, 1.0], bootstrap_iteration=[1, 10], chunk_size=[2, 40],
+        factors = dict(bootstrap_factor=[0.3, 0.5, 0.8, 1.0], bootstrap_iteration=[1, 10, 300], chunk_size=[2, 40],
                        n_processors=[1, 2], flatten=[False, True], drop_level=[None] + list(h[:-1]), copies=[1, 2],
                        n_extra=[0, 3], rng_seed=[5, 77])
-        cent.append(dict(seed=int(seed) + i, world=dict(taxonomy=s, encoding=encs[(i + seed) % 3], n_query=6),
+        cent.append(dict(seed=int(seed) + i, world=dict(taxonomy=s, encoding=encs[(i + seed) % 3], n_query=6,
+                                                        n_unlabelled=(5 if i % 2 == 0 else 0)),
                          cases=c01.covering_sample(factors, 8 if quick else 30, rng)))
     return compose, cent
 
